@@ -1098,10 +1098,12 @@ func ruleAdvanceRel(c *Ctx) {
 			}
 			n++
 			key := fmt.Sprintf("%s:loop#%d", shortFuncName(fn), li+1)
-			// does v contain ph as an additive term (through phis and additions), or is it the bound?
-			var rel func(v ssa.Value, seen map[ssa.Value]bool) bool
-			rel = func(v ssa.Value, seen map[ssa.Value]bool) bool {
-				if v == ssa.Value(ph) || sameValueDeep(v, bound) {
+			// does v contain ph as an additive term (through phis, additions and the results of module helpers), or is
+			// it the bound?
+			var rel func(v ssa.Value, seen map[ssa.Value]bool, env *callEnv) bool
+			rel = func(v ssa.Value, seen map[ssa.Value]bool, env *callEnv) bool {
+				v, env = env.resolve(v)
+				if env == nil && (v == ssa.Value(ph) || sameValueDeep(v, bound)) {
 					return true
 				}
 				if seen[v] {
@@ -1111,30 +1113,42 @@ func ruleAdvanceRel(c *Ctx) {
 				switch x := v.(type) {
 				case *ssa.BinOp:
 					if x.Op == token.ADD {
-						return rel(x.X, seen) || rel(x.Y, seen)
+						return rel(x.X, seen, env) || rel(x.Y, seen, env)
 					}
 					if x.Op == token.SUB {
-						return rel(x.X, seen)
+						return rel(x.X, seen, env)
 					}
 				case *ssa.Phi:
 					for _, e := range x.Edges {
-						if !rel(e, seen) {
+						if !rel(e, seen, env) {
 							return false
 						}
 					}
 					return true
 				case *ssa.Call:
 					if cl, ok := isBuiltinCall(x, "len"); ok {
-						if bl, ok := isBuiltinCall(bound, "len"); ok && cl.Call.Args[0] == bl.Call.Args[0] {
-							return true
+						if bl, ok := isBuiltinCall(bound, "len"); ok {
+							a, aenv := env.resolve(cl.Call.Args[0])
+							if aenv == nil && a == bl.Call.Args[0] {
+								return true
+							}
+						}
+						return false
+					}
+				}
+				if rets, cenv, ok := calleeResults(p, v, env); ok {
+					for _, rv := range rets {
+						if !rel(rv, seen, cenv) {
+							return false
 						}
 					}
+					return true
 				}
 				return false
 			}
 			var bad []string
 			for _, u := range updates {
-				if !rel(u, map[ssa.Value]bool{}) {
+				if !rel(u, map[ssa.Value]bool{}, nil) {
 					bad = append(bad, describeValue(u))
 				}
 			}
